@@ -17,6 +17,7 @@ from __future__ import annotations
 
 import itertools
 import math
+import random
 import warnings
 
 import numpy as np
@@ -36,7 +37,7 @@ REQUIRED = [_P + n for n in [
     "C15_uphill", "C15_uphill_gen", "C15_first_component_witness",
     "C15_projection", "C15_projection_gen", "C15_projection_overlap", "C15_projection_all_zeroed",
     "C15_eigbounds_no_outward",
-    "C15_rayleigh",
+    "C15_rayleigh", "C15_bridge_rayleigh", "C15_rayleigh_at_source_displacement",
 ]]
 RULE = ("cases = one (vector, gradient) / (vector, pinning pattern) / (quadratic surface, point, vector) input or "
         "one traced get_smallest_eigenvector call, compared model-vs-implementation; non-trivial = answered by "
@@ -331,7 +332,15 @@ def pred_eigen(spec: dict, x, np_seed: int, chain: dict | None = None):
         h = chain["h"]
         iv = chain["v"].copy() if chain.get("v") is not None and chain["warm"] else h.generate_random_vector(d)
     else:
-        h = HEF(pot, 1e-4, 10, 0.8)
+        # the options of the search that have nothing to do with the curvature search are not left at their
+        # defaults: step-length limits, push-off, number of steps (all drawn from the case's own seed)
+        orng = random.Random(np_seed * 7919 + 13)
+        opts = {}
+        if orng.random() < 0.5:
+            opts = {"max_uphill_step_size": orng.choice([0.05, 0.3, 5.0, 20.0, 50.0]),
+                    "min_uphill_step_size": orng.choice([1e-7, 1e-5, 1e-3]),
+                    "positive_eigenvalue_step": orng.choice([0.01, 0.1, 1.0])}
+        h = HEF(pot, orng.choice([1e-4, 1e-2, 1e-6]), orng.choice([10, 3, 200]), orng.choice([0.8, 0.05, 5.0]), **opts)
         h.remove_trans_rot = False
         iv = h.generate_random_vector(d)
         h.eigenvector_bounds = [(-math.inf, math.inf)] * d
@@ -371,6 +380,17 @@ def pred_eigen(spec: dict, x, np_seed: int, chain: dict | None = None):
         if abs(ev - w[0]) > 1e-3 * scale:
             return ("get_smallest_eigenvector:eigenvalue",
                     f"returned eigenvalue {ev}, lowest Hessian eigenvalue {w[0]} at {list(x)} (d={d})"), None
+        if hasattr(pot, "a") and hasattr(pot, "w") and hasattr(pot, "p"):
+            # "to finite-difference accuracy", derived for this surface: f = sum a_k cos(w_k.x + p_k); the central
+            # difference of the gradient along a unit vector with the documented displacement 1e-3 is off by at most
+            # sum a_k |w_k|^4 h^2 / 6; the Rayleigh quotient at the converged vector adds second-order terms only
+            fd = float(np.sum(np.abs(pot.a) * np.sum(pot.w ** 2, axis=1) ** 2)) * (1e-3) ** 2 / 6.0
+            if abs(ev - w[0]) > 2.0 * fd + 2e-5 * scale:
+                return ("get_smallest_eigenvector:eigenvalue-beyond-finite-difference-accuracy",
+                        f"returned eigenvalue {ev!r}, lowest Hessian eigenvalue {w[0]!r} at {list(x)} (d={d}): off by "
+                        f"{abs(ev - w[0]):.3e}, the finite-difference error of the displacement 1e-3 on this surface is "
+                        f"at most {fd:.3e} (search options {getattr(h, 'max_uphill_step_size', None)}, "
+                        f"{getattr(h, 'positive_eigenvalue_step', None)})"), None
         if abs(float(np.dot(v, U[:, 0]))) < 1.0 - 1e-3:
             return ("get_smallest_eigenvector:eigenvector",
                     f"returned direction has overlap {float(np.dot(v, U[:, 0]))} with the softest mode at {list(x)}"), None
